@@ -484,7 +484,7 @@ const LEFT_PUSHABLE: &[Expr] = &[Expr::Inner, Expr::Semi, Expr::RightOuter];
 const RIGHT_PUSHABLE: &[Expr] = &[Expr::Inner, Expr::Semi, Expr::Anti, Expr::LeftOuter];
 
 /// Returns true if the join type `ty` is one of `types`.
-fn join_type_is(ty: &str, types: &'static [Expr]) -> impl Fn(&mut EGraph, Id, &Subst) -> bool {
+pub(super) fn join_type_is(ty: &str, types: &'static [Expr]) -> impl Fn(&mut EGraph, Id, &Subst) -> bool {
     let ty = var(ty);
     move |egraph, _, subst| egraph[subst[ty]].nodes.iter().any(|e| types.contains(e))
 }
